@@ -8,7 +8,6 @@ from .. import frame, harness
 
 # set-iteration sites that no syntactic pattern and no P kernel discharges; each is an explicit *assumption* with a bounded stand-in (the multi-seed digest)
 ASSUMED_SITES = {
-    "einx/_src/namedtensor/stage2/cse.py:cse:comprehension": "order of common sub-expressions only determines the numbering of the fresh cse.<n> axis names; results must not depend on names (C16.S.no_name_order: nothing in the lowering orders or picks by name; C08 renaming relation; digest with tied composed axes)",
     "einx/_src/namedtensor/stage2/solve.py:axisnames_in_equation:list()": "the list is only compared with a one-element list ([axis_name] != ...): order cannot matter",
 }
 ASSUMED_SITES["einx/_src/util/solver.py:solve:iter()"] = "next(iter(class_constants)) picks an arbitrary constant only when the class has several different constants, in which case the variables are recorded as contradicting and solve() raises SolveExceptionNoSolution"
